@@ -16,7 +16,7 @@ func init() {
 		ID: "C06",
 		Explanation: "Decided: (R1) the actor state is written only by CAS(running→killing), CAS(killing→killed) and the restart step's Store(running); the kill routine is entered only after a won CAS(running→killing) or for a zombie; " +
 			"(R2) the kill routine forwards Kill (same poison flag) to every child, one call per iteration, never leaving the loop early; (R3) the killed mark is taken only on the 'no children left' edge and every later step of the kill chain does nothing unless the mark was won; " +
-			"(R4) on the terminating path unsubscribe-all, registry removal, one OnKilled to every watcher and to the parent, ActorKilledEvent and scheduler clear each happen exactly once, and none of the first five is reachable on the restart path; " +
+			"(R4) on the terminating path unsubscribe-all, registry removal, one OnKilled to every watcher and to the parent, ActorKilledEvent and scheduler clear each happen exactly once, and none of the first five is reachable on the restart path; the registry removal precedes every termination notice; " +
 			"(R5) ActorOf refuses when the parent is killed and kills the new child when the parent is killing; (R6) a child's death is recorded before the killed gate is evaluated. " +
 			"NOT decided: cross-actor ordering of termination reports at run time, concurrent kills racing spawns.",
 		Assumptions: []string{"the kill chain steps are exactly the functions appended in the context's kill-chain builder (chain idiom)"},
@@ -24,9 +24,10 @@ func init() {
 			{ID: "C06.R1", Min: 5, Desc: "one-shot kill entry; state writers", Fn: c06OneShot},
 			{ID: "C06.R2", Min: 2, Desc: "kill forwarded to all children with the same poison flag", Fn: c06Forward},
 			{ID: "C06.R3", Min: 6, Desc: "killed gate: no children left; later steps gated by the won mark", Fn: c06Gate},
-			{ID: "C06.R4", Min: 9, Desc: "cleanup completeness: each effect exactly once on termination, none on restart", Fn: c06Cleanup},
+			{ID: "C06.R4", Min: 10, Desc: "cleanup completeness: each effect exactly once on termination, none on restart", Fn: c06Cleanup},
 			{ID: "C06.R5", Min: 2, Desc: "spawn while dying", Fn: c06SpawnWhileDying},
 			{ID: "C06.R6", Min: 1, Desc: "child death recorded before the killed gate", Fn: c06ChainOrder},
+			{ID: "C06.R7", Min: 8, Desc: "subscription indexes stay consistent, so unsubscribe-all on termination finds every subscription (C19.R2)", Fn: c19Indexes},
 		},
 	})
 }
@@ -343,6 +344,23 @@ func c06Cleanup(p *Program, r *Report) {
 		}
 		r.Check(!hit, "not on restart: "+e.name, firstPos(g, e.nodes), "unreachable when the termination is a restart (the reference, registration, watchers and subscriptions survive)")
 	}
+	// the path is released before anybody is told: a parent that reacts to OnKilled by re-using the name, or calls FindActor, must not see the dead actor
+	var regN, notices map[int]bool
+	for _, e := range effs {
+		switch e.name {
+		case "registry removal":
+			regN = e.nodes
+		case "OnKilled to the parent", "OnKilled to every watcher", "Publish(ActorKilledEvent)":
+			notices = union(notices, e.nodes)
+		}
+	}
+	okOrder := len(regN) > 0 && len(notices) > 0
+	for n := range notices {
+		if !g.DominatedByNodes(n, regN) {
+			okOrder = false
+		}
+	}
+	r.Check(okOrder, "path released before the termination is reported", firstPos(g, regN), "every termination notice (OnKilled to parent and watchers, ActorKilledEvent) is dominated by the registry removal: once an actor is reported terminated, FindActor fails and its name can be reused")
 	r.Check(okMsg, "termination notices are system messages carrying the self OnKilled", lc.Cleanup.Pos(), "every tell of the cleanup step has system=true and sends the handler's prepared self-OnKilled message")
 	// the prepared message names the actor itself
 	if lc.PrepareSelf != nil {
